@@ -406,7 +406,7 @@ pub trait TS {
 
     /// If the implementing type is `std::option::Option<T>`, then this associated type is set to `T`.
     /// All other implementations of `TS` should set this type to `Self` instead.
-    type OptionInnerType: ?Sized;
+    type OptionInnerType: TS + ?Sized;
 
     /// JSDoc comment to describe this type in TypeScript - when `TS` is derived, docs are
     /// automatically read from your doc comments or `#[doc = ".."]` attributes
